@@ -16,6 +16,7 @@ import subprocess
 import sys
 import time
 import types
+from contracts.meshkit import Opts as _Opts  # noqa: E402
 
 import z3
 
@@ -51,7 +52,7 @@ def native_obligations(S):
             bad.append(dict(general_settings=extra, problem="Equilibrium.resetNonorthogonalOptions does not propagate the evaluated options to its regions"))
     S.static_vc("options", FN_RS, "regions reset their non-orthogonal options with the equilibrium's own (derived) defaults; the equilibrium propagates the evaluated set (%d cases)" % n, not bad, detail=repr(bad[:2]), kind="native", model=bad[0] if bad else None)
     # orthogonal mesh refuses
-    me = types.SimpleNamespace(equilibrium=types.SimpleNamespace(resetNonorthogonalOptions=lambda s: None), user_options=types.SimpleNamespace(orthogonal=True), regions={})
+    me = types.SimpleNamespace(equilibrium=types.SimpleNamespace(resetNonorthogonalOptions=lambda s: None), user_options=_Opts(orthogonal=True), regions={})
     import warnings
 
     with warnings.catch_warnings():
@@ -94,7 +95,7 @@ def orchestration(S):
 
     regs = {k: R("r%d" % k) for k in range(3)}
     eq = types.SimpleNamespace(resetNonorthogonalOptions=lambda s: log.append(("reset", dict(s))))
-    me = types.SimpleNamespace(equilibrium=eq, regions=regs, user_options=types.SimpleNamespace(orthogonal=False))
+    me = types.SimpleNamespace(equilibrium=eq, regions=regs, user_options=_Opts(orthogonal=False))
     settings = dict(nonorthogonal_xpoint_poloidal_spacing_length=0.03)
     import contextlib, io
 
